@@ -5150,6 +5150,7 @@ class Entity(object, metaclass=EntityMeta):
             wbits = obj._wbits_
             get_val = obj._vals_.get
             objects_to_save = cache.objects_to_save
+            queued = False
             if avdict:
                 if any(attr not in obj._vals_ and attr.reverse and obj._bits_[attr] for attr in avdict):
                     obj._load_()
@@ -5168,6 +5169,7 @@ class Entity(object, metaclass=EntityMeta):
                         obj._status_ = 'modified'
                         obj._save_pos_ = len(objects_to_save)
                         objects_to_save.append(obj)
+                        queued = True
                         cache.modified = True
 
                 if not collection_avdict:
@@ -5184,7 +5186,7 @@ class Entity(object, metaclass=EntityMeta):
             def undo_func():
                 obj._status_ = status
                 obj._wbits_ = wbits
-                if status in ('loaded', 'inserted', 'updated'):
+                if queued:  # only collections may have been passed: then the object was not queued by this call
                     assert objects_to_save
                     obj2 = objects_to_save.pop()
                     assert obj2 is obj and obj._save_pos_ == len(objects_to_save)
